@@ -298,3 +298,87 @@ func VerifH_C13_CreateVerifiesDocID() {
 	}
 	vObserve("created", cerr == nil)
 }
+
+// VerifH_C06_WriteConflict — C06 at the API level: two overlapping explicit transactions that both modify one document
+// (the real collection.Update / Delete inside real db.NewTxn transactions over the transactional store model, whose
+// commit fails with ErrTxnConflict when a key the transaction read was written by a transaction that committed after it
+// started): the first commit succeeds, the second reports a conflict and leaves no trace.
+// conf: second (0: the second transaction updates another field, 1: the same field, 2: deletes the document)
+func VerifH_C06_WriteConflict() {
+	e := vNewEnv(vFieldLWW, false)
+	_ = e
+	st := vNewStore()
+	bus := &sBus{}
+	d := &DB{rootstore: st, events: bus, signingDisabled: true}
+	def := sDefinition(false)
+	c := &collection{db: d, def: def}
+	bg := context.Background()
+	setupC, err := d.NewTxn(bg, false)
+	vBound(err == nil, "setup txn")
+	setup := setupC.(*Txn)
+	sctx := InitContext(bg, setup)
+	vBound(id.SetShortCollectionID(sctx, vColID) == nil, "short collection id")
+	for _, f := range sFields {
+		vBound(id.SetShortFieldID(sctx, 1, f) == nil, "short field id")
+	}
+	vBound(setup.Commit(sctx) == nil, "setup commit")
+
+	val := string([]byte{'a' + vU8("payload")%26})
+	mk := func() *client.Document {
+		var doc *client.Document
+		var derr error
+		if vSymbolic() {
+			docID, perr := client.NewDocIDFromString(uDocIDs[0])
+			vBound(perr == nil, "doc id")
+			doc, derr = client.NewDocWithID(docID, def)
+			vBound(derr == nil, "doc")
+			vBound(doc.Set(sFields[0], val) == nil, "set")
+		} else {
+			doc, derr = client.NewDocFromMap(map[string]any{sFields[0]: val}, def)
+			vBound(derr == nil, "doc")
+		}
+		return doc
+	}
+	vBound(c.Create(bg, mk()) == nil, "create")
+
+	t1C, err := d.NewTxn(bg, false)
+	vBound(err == nil, "txn 1")
+	t2C, err := d.NewTxn(bg, false)
+	vBound(err == nil, "txn 2")
+	t1, t2 := t1C.(*Txn), t2C.(*Txn)
+	ctx1, ctx2 := InitContext(bg, t1), InitContext(bg, t2)
+	d1 := mk()
+	vBound(d1.Set(sFields[1], "x") == nil, "set")
+	vBound(c.Update(ctx1, d1) == nil, "update in the first transaction")
+	d2 := mk()
+	switch vConfInt("second") {
+	case 0:
+		vBound(d2.Set(sFields[0], "y") == nil, "set")
+		vBound(c.Update(ctx2, d2) == nil, "update in the second transaction")
+	case 1:
+		vBound(d2.Set(sFields[1], "y") == nil, "set")
+		vBound(c.Update(ctx2, d2) == nil, "update in the second transaction")
+	default:
+		ok, derr := c.Delete(ctx2, d2.ID())
+		vBound(ok && derr == nil, "delete in the second transaction")
+	}
+	first, second := t1, t2
+	fctx, sctx2 := ctx1, ctx2
+	if vBool("second-commits-first") {
+		first, second, fctx, sctx2 = t2, t1, ctx2, ctx1
+	}
+	vAssert(first.Commit(fctx) == nil, "first-commit-succeeds")
+	after1 := sStoreSnapshot(st)
+	events := len(bus.msgs)
+	cerr := second.Commit(sctx2)
+	vCover("committed")
+	vAssert(cerr != nil, "second-of-two-overlapping-writers-gets-a-conflict")
+	after2 := sStoreSnapshot(st)
+	same := len(after1) == len(after2)
+	for i := 0; same && i < len(after1); i++ {
+		same = after1[i] == after2[i]
+	}
+	vAssert(same, "conflicting-transaction-leaves-no-trace")
+	vAssert(len(bus.msgs) == events, "conflicting-transaction-publishes-nothing")
+	vObserve("conflict", cerr != nil)
+}
